@@ -55,9 +55,11 @@ type pktIn struct {
 	Compress bool   `json:"compress"`
 	Body     string `json:"body"` // hex; for command types: ignored when Cmd != nil
 	Cmd      *packet.CommandPacket `json:"cmd,omitempty"`
+	Rate     int64  `json:"rate"` // rateLimitBytesPerSecond handed to WritePacket (0 = unlimited)
 }
 type caseIn struct {
-	Mode string  `json:"mode"` // "pk" | "raw" | "ws" (pk over a WebSocket adapter; Cuts = message lengths)
+	Mode string  `json:"mode"` // "pk" | "raw" | "ws" (pk over a WebSocket adapter; Cuts = message lengths) | "cw" (two concurrent writers)
+	Park int     `json:"park"` // cw: writer A is parked before its Park-th transport Write call
 	Side string  `json:"side"` // ws: server | client | transport
 	Pkts []pktIn `json:"pkts"`
 	Wire string  `json:"wire"`
@@ -205,7 +207,7 @@ func runCase(raw json.RawMessage) interface{} {
 				tp.Payload = body
 			}
 			before := buf.Len()
-			n, err := sp.WritePacket(tp, p.Compress, 0)
+			n, err := sp.WritePacket(tp, p.Compress, p.Rate)
 			if err != nil {
 				out.PropOK = false
 				out.PropMsg = fmt.Sprintf("WritePacket refused a well-formed packet: %v", err)
@@ -278,6 +280,8 @@ func runCase(raw json.RawMessage) interface{} {
 				}
 			}
 		}
+	case "cw":
+		return runCW(c)
 	case "raw":
 		wire = unhx(c.Wire)
 		obsv, _ := readAll(wire, c.Cuts, c.Big)
